@@ -366,3 +366,94 @@ func VerifNewValidatorWorld(shape int) *VerifValidatorWorld {
 	w.Sink = linkCall(cSink, sink, 4)
 	return w
 }
+
+// VerifInterWorld: `main: t0 = source(); t1 = other(); r = h(t0, t1); sink(r)` with a user function
+// `h(a, b) { v = op(x); return v }` (x one of a, b; op one of four value-typed kinds) that has a body. In eager mode
+// h is summarised before the traversal; in on-demand mode its summary exists but is not constructed and the
+// visitor must build it when it reaches the call.
+type VerifInterWorld struct {
+	State  *AnalyzerState
+	Source *CallNode
+	Sink   *CallNode
+	H      *CallNode
+	Err    error
+}
+
+func VerifNewInterWorld(opKind, operand int, onDemand bool) *VerifInterWorld {
+	w := &VerifInterWorld{}
+	intT := types.Type(types.Typ[types.Int])
+	pkg := &ssa.Package{Pkg: types.NewPackage("example.com/p", "p")}
+	prog := &ssa.Program{Fset: token.NewFileSet()}
+	typed := func(i ssa.Instruction, t types.Type) { verifSetUnexported(i, "typ", t) }
+	// h
+	h := verifExternal("h", 2, 1, pkg)
+	h.Prog = prog
+	body, _ := c08MakeInstr(opKind, h.Params[operand], h.Params[operand])
+	typed(body, intT)
+	hret := &ssa.Return{Results: []ssa.Value{body.(ssa.Value)}}
+	hb := &ssa.BasicBlock{Index: 0}
+	hSetBlock(h, hb, []ssa.Instruction{body, hret})
+	h.Blocks = []*ssa.BasicBlock{hb}
+	// main
+	mainFn := &ssa.Function{Signature: hSig(0, 0), Prog: prog, Pkg: pkg}
+	verifSetUnexported(mainFn, "name", "main")
+	source := verifExternal("source", 0, 1, pkg)
+	other := verifExternal("other", 0, 1, pkg)
+	sink := verifExternal("sink", 1, 0, pkg)
+	cSrc := &ssa.Call{}
+	cSrc.Call.Value = source
+	typed(cSrc, intT)
+	cOther := &ssa.Call{}
+	cOther.Call.Value = other
+	typed(cOther, intT)
+	cH := &ssa.Call{}
+	cH.Call.Value = h
+	cH.Call.Args = []ssa.Value{cSrc, cOther}
+	typed(cH, intT)
+	cSink := &ssa.Call{}
+	cSink.Call.Value = sink
+	cSink.Call.Args = []ssa.Value{cH}
+	typed(cSink, types.Type(types.NewTuple()))
+	blk := &ssa.BasicBlock{Index: 0}
+	hSetBlock(mainFn, blk, []ssa.Instruction{cSrc, cOther, cH, cSink, &ssa.Return{}})
+	mainFn.Blocks = []*ssa.BasicBlock{blk}
+	cfg := &config.Config{}
+	cfg.SummarizeOnDemand = onDemand
+	s := &AnalyzerState{
+		Config:          cfg,
+		Logger:          &config.LogGroup{},
+		Program:         prog,
+		PointerAnalysis: &pointer.Result{Queries: map[ssa.Value]pointer.Pointer{}, IndirectQueries: map[ssa.Value]pointer.Pointer{}},
+		Globals:         map[*ssa.Global]*GlobalNode{},
+		FlowGraph:       &InterProceduralFlowGraph{Summaries: map[*ssa.Function]*SummaryGraph{}},
+	}
+	w.State = s
+	track := func(*AnalyzerState, ssa.Node) bool { return false }
+	mainSum := NewSummaryGraph(s, mainFn, 1, track, nil)
+	_, w.Err = RunIntraProcedural(s, mainSum)
+	s.FlowGraph.Summaries[mainFn] = mainSum
+	link := func(call *ssa.Call, callee *ssa.Function, id uint32, construct bool) *CallNode {
+		sg := NewSummaryGraph(s, callee, id, track, nil)
+		if callee.Blocks != nil {
+			if construct {
+				if _, err := RunIntraProcedural(s, sg); err != nil && w.Err == nil {
+					w.Err = err
+				}
+			}
+		} else {
+			sg.Constructed = true
+		}
+		s.FlowGraph.Summaries[callee] = sg
+		cn := mainSum.Callees[call][callee]
+		if cn != nil {
+			cn.CalleeSummary = sg
+			sg.Callsites[call] = cn
+		}
+		return cn
+	}
+	w.Source = link(cSrc, source, 2, true)
+	link(cOther, other, 3, true)
+	w.H = link(cH, h, 4, !onDemand)
+	w.Sink = link(cSink, sink, 5, true)
+	return w
+}
